@@ -156,7 +156,7 @@ fn real_eps() -> Vec<Ep> {
             |_v| None),
         ep!("client::media::get_content", 2, c::media::get_content::v3,
             |v| c::media::get_content::v3::Request::new(v[0].clone(), "x.y".try_into().ok()?),
-            |v| { let mut r = c::media::get_content::v3::Response::new(v[0].as_bytes().to_vec(), "text/plain".to_owned(), ruma_common::http_headers::ContentDisposition::new(ruma_common::http_headers::ContentDispositionType::Inline)); if v[1] == "-" { r.content_type = None; r.content_disposition = None; r.cross_origin_resource_policy = None; } Some(r) }),
+            |v| { let mut r = c::media::get_content::v3::Response::new(v[0].as_bytes().to_vec(), "text/plain".to_owned(), ruma_common::http_headers::ContentDisposition::new(ruma_common::http_headers::ContentDispositionType::Inline).with_filename(Some(v[1].clone()))); if v[1] == "-" { r.content_type = None; r.content_disposition = None; r.cross_origin_resource_policy = None; } Some(r) }),
         ep!("client::authenticated_media::get_content_as_filename", 2, c::authenticated_media::get_content_as_filename::v1,
             |v| c::authenticated_media::get_content_as_filename::v1::Request::new(v[0].clone(), "x.y:8448".try_into().ok()?, v[1].clone()),
             |_v| None),
